@@ -76,6 +76,8 @@ Fmt(x, p, o) == [fn |-> "fmt", xd |-> x, pic |-> p] @@ (IF o = <<>> THEN <<>> EL
 Init == /\ \/ \E x \in Ties \cup Plain \cup Pow10 \cup Zeros2, p \in Precisions : InRoundScope(x, p) /\ c = Call([fn |-> "round", xd |-> x, p |-> p])
            \/ \E x \in Ties, p \in Precisions, nd \in {1, 0 - 1} : InRoundScope(x, p) /\ x.e + p = 0 - 1 /\ c = Call([fn |-> "round", xd |-> x, p |-> p, nudge |-> nd])
            \/ \E x \in Ties \cup Zeros2 : c = Call([fn |-> "round", xd |-> x])
+           \* the ends of the double range: the result is a number (never an infinity)
+           \/ \E x \in Extremes \cup {X(0 - 1, <<1, 7>>, 307), X(1, <<1, 7>>, 307), X(1, <<9>>, 307)}, p \in {0 - 308, 0 - 307, 0 - 300, 0 - 292, 0, 12} : c = Call([fn |-> "round", xd |-> x, p |-> p])
            \/ \E x \in Ties \cup Plain \cup Pow10 \cup Zeros2 \cup Extremes, f \in {"string", "numrt"} : c = Call([fn |-> f, xd |-> x])
            \/ \E x \in Ties \cup Extremes, nd \in {1, 0 - 1}, f \in {"string", "numrt"} : c = Call([fn |-> f, xd |-> x, nudge |-> nd])
            \/ \E sp \in SubPics, x \in (IF Depth >= 2 THEN FmtNumbers ELSE FewNumbers) : c = Call(Fmt(x, sp, <<>>))
